@@ -230,6 +230,32 @@ Proof.
 Qed.
 Print Assumptions C12_hashmap_is_flat_map.
 
+(* next(m) / next(m, k) is not an operation of the step relation (it is the only hashmap operation with a failing
+   precondition, and the step/history theorems have the shape "Overflow or the specification's result").  Stated on
+   its own: it answers exactly as the flat map's hash-free next - so next does not depend on the hash function
+   either -, and against the association list: an absent key is stopped by the assertion, next(m) is a binding iff
+   the map is not empty, every binding returned is one of the map's. *)
+Theorem C12_hashmap_next_is_flat_and_refines_map :
+  forall (K V : Type) (keqb : K -> K -> bool) (khash : K -> Z),
+  (forall a b, keqb a b = keqb b a) ->
+  (forall a b c, keqb a b = true -> keqb b c = true -> keqb a c = true) ->
+  (forall a b, keqb a b = true -> khash a = khash b) ->
+  (forall (k : option K) (m : hmap K V), hm_inv K V keqb khash m ->
+     fm_next K V keqb k (canon K V m) = hm_next K V keqb khash k m) /\
+  (forall (k : option K) (m : hmap K V) (al : list (K * V)), hm_R K V keqb khash m al ->
+     match k with
+     | None => exists o, hm_next K V keqb khash None m = Ok o /\ (o = None <-> al = []) /\ (forall kv, o = Some kv -> In kv al)
+     | Some k' =>
+         match al_get K V keqb k' al with
+         | None => hm_next K V keqb khash (Some k') m = Trap TrapInvalidKey
+         | Some _ => exists o, hm_next K V keqb khash (Some k') m = Ok o /\ (forall kv, o = Some kv -> In kv al)
+         end
+     end).
+Proof.
+  exact (fun K V keqb khash Hs Ht Hc => conj (hm_next_flat K V keqb khash Hs Ht Hc) (hm_next_refines_map K V keqb khash Hs Ht Hc)).
+Qed.
+Print Assumptions C12_hashmap_next_is_flat_and_refines_map.
+
 (* hence nothing observable depends on the hash function: two runs of the same history, with two hash functions
    that both respect ==, from states with the same canonical form (e.g. both empty), return EQUAL result lists
    (iteration order included) and end in states with the same canonical form - so the same bindings in the same
@@ -450,30 +476,29 @@ Theorem C12_span_guards : forall (T : Type) (i j : nat) (s : list T),
 Proof. exact (fun T i j s => conj (span_at_guard T i s) (span_sub_guard T i j s)). Qed.
 Print Assumptions C12_span_guards.
 
-(* ---- iterators.nelua: a `for` driven by ipairs (vector, span), pairs (list, hashmap) - equally by next with the
+(* ---- iterators.nelua: a `for` driven by ipairs (vector, span), pairs (sequence, list, hashmap) - equally by next with the
    previous control value, which is the same function - visits exactly the elements / bindings of the container in the
-   order of its abstract model: list order with the indices 0.. for vector and span, the nodes front to back for the
+   order of its abstract model: list order with the indices 0.. for vector and span and 1.. for the sequence, the nodes front to back for the
    list, node order (= the order of the hash-free flat map) for the hashmap; the container is left unchanged. *)
 Theorem C12_iterators_visit_in_order :
   (forall (T : Type) (v : vec T), vec_wf T v ->
      vec_ipairs T v = Ok (v, combine (map Z.of_nat (List.seq 0 (vec_len T v))) (vec_contents T v))) /\
+  (forall (T : Type) (dflt : T) (s : seq T), seq_wf T s ->
+     seq_pairs T dflt s = Ok (s, combine (map (fun i => Z.of_nat (i + 1)) (List.seq 0 (seq_len T s))) (seq_contents T s))) /\
   (forall (T : Type) (mem : list T) (w : spanw), sp_wf mem w ->
      span_ipairs T mem w = Ok (w, combine (map Z.of_nat (List.seq 0 (sp_size w))) (sp_view T mem w))) /\
   (forall (T : Type) (dflt : T) (d : dlist T) (idx : list nat), dl_wf T d idx ->
      dl_pairs T d = Ok (d, combine (map Some idx) (vals T dflt (larena T d) idx))) /\
   (forall (K V : Type) (m : hmap K V), exists l, hm_for_pairs K V m = Ok (m, l) /\ map snd l = hm_abs K V m).
-Proof. exact (conj vec_ipairs_ok (conj span_ipairs_ok (conj dl_pairs_ok hm_for_pairs_ok))). Qed.
+Proof. exact (conj vec_ipairs_ok (conj seq_pairs_ok (conj span_ipairs_ok (conj dl_pairs_ok hm_for_pairs_ok)))). Qed.
 Print Assumptions C12_iterators_visit_in_order.
 
 (* the references handed out by mipairs / mpairs / mnext alias the stored elements: &v[i] reads as v[i] and writes as
-   v[i] = x, so `for i, x in mipairs(v) do $x = f($x) end` is the element-wise update (capacity unchanged); the list's
+   v[i] = x; the list's
    reference is the node whose value pairs() yields; the hashmap's is the filled node whose binding pairs() yields *)
 Theorem C12_iterators_references_alias :
   (forall (T : Type) (i : nat) (v : vec T) (r : nat) (v' : vec T), vec_ref T i v = Ok (v', r) ->
      v' = v /\ vec_ref_read T r v = vec_at T i v /\ forall x, vec_ref_write T r x v = vec_assign T i x v) /\
-  (forall (T : Type) (f : T -> T) (v : vec T), vec_wf T v ->
-     exists v', vec_mipairs_map T f v = Ok v' /\ vec_wf T v' /\ vec_contents T v' = map f (vec_contents T v) /\
-                vec_cap T v' = vec_cap T v) /\
   (forall (T : Type) (d : dlist T) (node : option nat),
      match dl_next T d node with
      | Ok (d', Some (c, x)) => exists nd, dl_mnext T d node = Ok (d', Some (c, match c with Some j => j | None => 0 end)) /\
@@ -488,8 +513,34 @@ Theorem C12_iterators_references_alias :
      | Ok (m', None) => hm_it_mnext K V m it = Ok (m', None)
      | Trap t => False
      end).
-Proof. exact (conj vec_ref_alias (conj vec_mipairs_map_ok (conj dl_mnext_alias hm_it_mnext_alias))). Qed.
+Proof. exact (conj vec_ref_alias (conj dl_mnext_alias hm_it_mnext_alias)). Qed.
 Print Assumptions C12_iterators_references_alias.
+
+(* hence updating through the references is the element-wise update of the abstract container, for the whole loop
+   `for k, x in mipairs(v) / mpairs(l) / mpairs(m) do $x = f($x) end`: vector contents and list values become map f
+   (capacity, links and well-formedness kept); for the hashmap the loop through the iterator object is hm_mapvals f,
+   the operation HMapVals of the step relation (whose refinement is C12_hashmap_step_refines_map). *)
+Theorem C12_iterators_update_through_references :
+  (forall (T : Type) (f : T -> T) (v : vec T), vec_wf T v ->
+     exists v', vec_mipairs_map T f v = Ok v' /\ vec_wf T v' /\ vec_contents T v' = map f (vec_contents T v) /\
+                vec_cap T v' = vec_cap T v) /\
+  (forall (T : Type) (dflt : T) (f : T -> T) (d : dlist T) (idx : list nat), dl_wf T d idx ->
+     exists d', dl_mpairs_map T f d = Ok d' /\ dl_wf T d' idx /\
+                vals T dflt (larena T d') idx = map f (vals T dflt (larena T d) idx)) /\
+  (forall (K V : Type) (f : V -> V) (m : hmap K V), hm_for_mpairs K V f m = Ok (hm_mapvals K V f m)).
+Proof. exact (conj vec_mipairs_map_ok (conj dl_mpairs_map_ok hm_for_mpairs_ok)). Qed.
+Print Assumptions C12_iterators_update_through_references.
+
+(* select(i, ...): all arguments from index i on (counted from the end for a negative i); select('#', ...) counts.
+   The model is the specification itself (the selection happens at compile time): the statement is what the
+   correspondence checks against the compiled code since /repo 6bf5a38 (before, only one value was returned). *)
+Theorem C12_select_returns_suffix : forall (A : Type) (args : list A),
+  (forall i, (1 <= i <= Z.of_nat (length args))%Z -> select_from i args = Some (skipn (Z.to_nat i - 1) args)) /\
+  (forall i, (- Z.of_nat (length args) <= i <= -1)%Z ->
+     select_from i args = Some (skipn (length args - Z.to_nat (- i)) args)) /\
+  select_count args = length args.
+Proof. exact (fun A args => conj (select_from_pos A args) (conj (select_from_neg A args) eq_refl)). Qed.
+Print Assumptions C12_select_returns_suffix.
 
 (* ---- list (doubly linked): [dl_wf d idx]: idx lists the node indices front to back without repetition, every
    listed node is alive and its prev/next pointers are exactly its neighbours in idx, front/back are the ends.
